@@ -178,7 +178,44 @@ def run_c03(ctx) -> Corr:
                                  {"history": Hist(h.version, h.metric, h.preload, h.ops[: i + 1]).to_json(), "outcome": o["out"]})
     account(corr, hists, impl, lambda h, op, before, o: not o["out"].startswith("ok"))
     _stream_bytes(corr, ctx)
+    _concurrent_sends(corr, ctx)
     return corr
+
+
+def _concurrent_sends(corr: Corr, ctx) -> None:
+    """'Whatever state the controller is in' includes the states other tasks create while the listener is suspended
+    in a transport write: application tasks calling send during the release of a woken node's commands (same and new
+    keys).  Every interleaving of one wake with <= 2 calls and 1-2 parked commands (the C09 machinery): the listener
+    and the senders may only ever raise library errors."""
+    import asyncio
+
+    from . import flushrace as fr
+
+    cases = []
+    vi = 0
+    for parked, shape in fr.configs(range(1, 3), range(1, 3), fr.one_task):
+        for sched in fr.enumerate_schedules(fr.Case("2.0", parked, shape)):
+            cases.append(fr.Case(fr.WAKE_VERSIONS[vi % 3], parked, shape, sched, "c03-concurrent"))
+            vi += 1
+    if ctx.tier == "quick":
+        cases = cases[::3]
+    lib_names = {"MissingNodeError", "MissingChildError", "TooManyNodesError", "InvalidMessageError", "UnsupportedMessageError",
+                 "TransportError", "TransportReadError", "TransportFailedError", "AIOMySensorsError"}
+
+    async def go():
+        for case in cases:
+            try:
+                _obs, _bad, info = await fr.run_case(case)
+            except fr.HarnessBug as err:
+                corr.notes.append(f"concurrent-send case not executable: {str(err)[:200]}")
+                continue
+            foreign = [e for e in info["errors"] if e.split(" ")[-1] not in lib_names]
+            if foreign:
+                corr.violate("a non-library exception escaped while send calls ran concurrently with the listener's writes",
+                             {**case.to_json(), "errors": foreign})
+            corr.case(("concurrent", case.version, str(case.parked), str(case.senders), " ".join(case.schedule)), True, None)
+            corr.count("concurrent-send-schedules")
+    asyncio.run(go())
 
 
 def _stream_bytes(corr: Corr, ctx) -> None:
